@@ -10,6 +10,7 @@ TRUSTED_BASE = [
 
 PROPS = {}
 UNITS = []
+NOT_APPLICABLE = {}
 
 
 def H(name, props, fn, clause, tier="quick", bounded=None, timeout=300, canary=False, cost=1, **kw):
